@@ -45,6 +45,8 @@ func viol(c *core.Case, sig, format string, a ...any) []core.Violation {
 
 func (w *tlogWorld) Check(c *core.Case) ([]core.Violation, bool) {
 	switch c.K {
+	case "appendidx", "treeidx", "coord":
+		return w.checkRecorded(c)
 	case "append":
 		return w.checkAppend(c)
 	case "rectext":
@@ -232,40 +234,134 @@ func (w *tlogWorld) checkTreeText(c *core.Case) ([]core.Violation, bool) {
 
 // Record: long random logs; only which stored indexes were read is logged, plus
 // index-function results for random coordinates (big trees stay cheap for TLC).
-func (w *tlogWorld) Record(rng *rand.Rand, n int, emit func(k string, in, obs any)) {
-	st := &memStore{}
-	leaves := []refmerkle.Hash{}
-	nrec := n
-	for i := 0; i < nrec; i++ {
-		data := []byte(fmt.Sprintf("r%d-%d\n", i, rng.Intn(3)))
-		st.reads = nil
-		hs, err := tlog.StoredHashes(int64(i), data, st)
-		if err != nil {
-			panic(err)
+// ---- E3: long logs ----
+// Record contents are a function of the record number only (so that any recorded event can be re-run alone);
+// their lengths sweep the boundaries of hash block sizes and small buffers.
+var recLens = []int{1, 2, 7, 31, 32, 33, 55, 56, 57, 63, 64, 65, 119, 120, 127, 128, 129, 254, 255, 256, 257, 258, 511, 512, 513, 1000}
+
+func recData(i int) []byte {
+	b := make([]byte, recLens[(i*7+i/len(recLens))%len(recLens)])
+	for j := range b {
+		b[j] = byte(i*131 + j*7 + 1)
+	}
+	return b
+}
+
+type longLog struct {
+	st     *memStore
+	leaves []refmerkle.Hash
+}
+
+func (g *longLog) size() int { return len(g.leaves) }
+
+// appendOne appends record number size() and observes where its hashes go and whether each of them is the
+// RFC 6962 hash of the complete subtree the layout assigns to it.
+func (g *longLog) appendOne() (map[string]any, map[string]any) {
+	i := g.size()
+	data := recData(i)
+	g.st.reads = nil
+	hs, err := tlog.StoredHashes(int64(i), data, g.st)
+	if err != nil {
+		return map[string]any{"pos": -1, "nnew": 0, "count": tlog.StoredHashCount(int64(i + 1)), "hashok": false}, map[string]any{"reads": []int64{}}
+	}
+	reads := append([]int64{}, g.st.reads...)
+	sort.Slice(reads, func(a, b int) bool { return reads[a] < reads[b] })
+	pos := len(g.st.h)
+	g.st.h = append(g.st.h, hs...)
+	g.leaves = append(g.leaves, refmerkle.LeafHash(data))
+	hashok := true
+	for j, h := range hs {
+		lo := i + 1 - (1 << uint(j))
+		if lo < 0 || [32]byte(h) != refmerkle.MTH(g.leaves[lo:i+1]) {
+			hashok = false
 		}
-		reads := append([]int64(nil), st.reads...)
-		sort.Slice(reads, func(a, b int) bool { return reads[a] < reads[b] })
-		pos := len(st.h)
-		st.h = append(st.h, hs...)
-		leaves = append(leaves, refmerkle.LeafHash(data))
-		emit("appendidx", map[string]any{"n": i}, map[string]any{"pos": pos, "nnew": len(hs), "count": tlog.StoredHashCount(int64(i + 1)), "_drift": map[string]any{"reads": reads}})
-		if i%16 == 0 || i == nrec-1 {
+	}
+	return map[string]any{"pos": pos, "nnew": len(hs), "count": tlog.StoredHashCount(int64(i + 1)), "hashok": hashok}, map[string]any{"reads": reads}
+}
+
+func (g *longLog) treeObs(m int) (map[string]any, map[string]any) {
+	g.st.reads = nil
+	th, err := tlog.TreeHash(int64(m), g.st)
+	reads := append([]int64{}, g.st.reads...)
+	if err != nil {
+		return map[string]any{"matchesRef": false}, map[string]any{"reads": reads}
+	}
+	return map[string]any{"matchesRef": [32]byte(th) == refmerkle.MTH(g.leaves[:m])}, map[string]any{"reads": reads}
+}
+
+func coordObs(L, K int) map[string]any {
+	idx := tlog.StoredHashIndex(L, int64(K))
+	l2, k2 := tlog.SplitStoredHashIndex(idx)
+	return map[string]any{"idx": idx, "l2": l2, "k2": k2}
+}
+
+// sizes at which splitting rules change: around powers of two and around multiples of 256
+func boundarySize(x int) bool {
+	pow := func(y int) bool { return y > 0 && y&(y-1) == 0 }
+	return pow(x) || pow(x+1) || pow(x-1) || x%256 == 255 || x%256 == 0 || x%256 == 1
+}
+
+func withDrift(obs, drift map[string]any) map[string]any {
+	obs["_drift"] = drift
+	return obs
+}
+
+func (w *tlogWorld) Record(rng *rand.Rand, n int, emit func(k string, in, obs any)) {
+	g := &longLog{st: &memStore{}}
+	for i := 0; i < n; i++ {
+		obs, drift := g.appendOne()
+		emit("appendidx", map[string]any{"n": i}, withDrift(obs, drift))
+		size := i + 1
+		if i%16 == 0 || i == n-1 {
 			// tree hash for a random earlier size, reads logged; value checked against the reference here
-			m := 1 + rng.Intn(i+1)
-			st.reads = nil
-			th, err := tlog.TreeHash(int64(m), st)
-			if err != nil {
-				panic(err)
-			}
-			reads := append([]int64(nil), st.reads...)
-			emit("treeidx", map[string]any{"m": m}, map[string]any{"matchesRef": [32]byte(th) == refmerkle.MTH(leaves[:m]), "_drift": map[string]any{"reads": reads}})
+			m := 1 + rng.Intn(size)
+			obs, drift := g.treeObs(m)
+			emit("treeidx", map[string]any{"m": m, "size": size}, withDrift(obs, drift))
+		}
+		if boundarySize(size) {
+			obs, drift := g.treeObs(size)
+			emit("treeidx", map[string]any{"m": size, "size": size}, withDrift(obs, drift))
 		}
 		if i%4 == 0 {
 			L := rng.Intn(20)
 			K := rng.Intn(1 << uint(rng.Intn(10)))
-			idx := tlog.StoredHashIndex(L, int64(K))
-			l2, k2 := tlog.SplitStoredHashIndex(idx)
-			emit("coord", map[string]any{"l": L, "k": K}, map[string]any{"idx": idx, "l2": l2, "k2": k2})
+			emit("coord", map[string]any{"l": L, "k": K}, coordObs(L, K))
 		}
 	}
+	// earlier boundary sizes, read from the full store
+	for m := 1; m < n; m++ {
+		if boundarySize(m) {
+			obs, drift := g.treeObs(m)
+			emit("treeidx", map[string]any{"m": m, "size": n}, withDrift(obs, drift))
+		}
+	}
+}
+
+// checkRecorded re-runs one recorded event of a long log and compares it with the specification's expectation.
+func (w *tlogWorld) checkRecorded(c *core.Case) ([]core.Violation, bool) {
+	var in struct{ N, M, Size, L, K int }
+	json.Unmarshal(c.In, &in)
+	var exp map[string]any
+	json.Unmarshal(c.Exp, &exp)
+	var obs map[string]any
+	switch c.K {
+	case "appendidx":
+		g := &longLog{st: &memStore{}}
+		for g.size() < in.N {
+			g.appendOne()
+		}
+		obs, _ = g.appendOne()
+	case "treeidx":
+		g := &longLog{st: &memStore{}}
+		for g.size() < in.Size {
+			g.appendOne()
+		}
+		obs, _ = g.treeObs(in.M)
+	case "coord":
+		obs = coordObs(in.L, in.K)
+	}
+	if d := core.Diff(exp, obs); len(d) > 0 {
+		return viol(c, c.K+":trace", "long log, event %s %s: observed %v, the specification expects %v (fields %v)", c.K, string(c.In), obs, exp, d), true
+	}
+	return nil, true
 }
